@@ -10,6 +10,8 @@ What is kept / dropped is specified in DESIGN.md section 2.2 and appendix A.  An
 the stated subset raises Unsupported (the caller turns that into exit code 2, never into a
 VIOLATION).
 """
+import json
+import os
 import re
 import struct
 import sys
@@ -407,6 +409,10 @@ def parse_metadata(src, mod):
         mod.dbgloc[mid] = (f, line)
 
 
+try:
+    SLOTS = {d['fn']: d['slots'] for d in (json.loads(l) for l in open(os.path.join(os.path.dirname(os.path.abspath(__file__)), 'slots.json')) if l.strip())}
+except (OSError, ValueError):
+    SLOTS = {}
 BINOPS = {'add', 'sub', 'mul', 'sdiv', 'udiv', 'srem', 'urem', 'and', 'or', 'xor', 'shl', 'lshr', 'ashr'}
 FBINOPS = {'fadd', 'fsub', 'fmul', 'fdiv', 'frem'}
 CASTS = {'zext', 'sext', 'trunc', 'bitcast', 'sitofp', 'uitofp', 'fptosi', 'fptoui', 'fpext', 'fptrunc', 'ptrtoint', 'inttoptr'}
@@ -1028,6 +1034,44 @@ class Emitter:
                 if h1 == h2: raise Unsupported('two latches for one header')
         return loops
 
+    def slot_list(s, f):
+        """parameters (v_<name>) and entry-block stack slots (m_<name>) of f in declaration order, with their C types"""
+        out = [[s.lname(nm), s.cty(t)] for (t, nm, at) in f.params]
+        for ins in (f.blocks[0].ins if f.blocks else []):
+            if ins.op == 'alloca':
+                out.append(['m_' + san(ins.dst), s.cty(ins.a[0])])
+        return out
+
+    def remap_contract_names(s, fn, f, contract):
+        """Contracts name source variables (v_<param>, m_<local>).  A refactoring that only RENAMES a parameter or a local must not invalidate them:
+        vf/slots.json records, per function under contract, the slot list of the tree the contract was written against; if the current list has the
+        same length and the same types position by position, the recorded names are mapped to the current ones (by position) in every clause.
+        Ghost copies requested by `expose` keep their recorded names.  With VF_SNAPSHOT_SLOTS set, the current list is appended to that file instead."""
+        cur = s.slot_list(f)
+        snap_to = os.environ.get('VF_SNAPSHOT_SLOTS')
+        if snap_to:
+            with open(snap_to, 'a') as fh: fh.write(json.dumps({'fn': fn, 'slots': cur}) + '\n')
+            return contract
+        old = SLOTS.get(fn)
+        if not old or [n for n, _ in old] == [n for n, _ in cur]: return contract
+        if len(old) != len(cur) or any(a[1] != b[1] for a, b in zip(old, cur)): return contract     # not a pure rename: names are used as they are
+        ren = {a[0]: b[0] for a, b in zip(old, cur) if a[0] != b[0]}
+        if not ren: return contract
+        rx = re.compile(r'\b(' + '|'.join(re.escape(k) for k in sorted(ren, key=len, reverse=True)) + r')\b')
+
+        def sub(x, keep=False):
+            if isinstance(x, str): return rx.sub(lambda m: ren[m.group(1)], x)
+            if isinstance(x, list): return [sub(y) for y in x]
+            if isinstance(x, tuple): return tuple(sub(y) for y in x)
+            if isinstance(x, dict): return {k: (v if k in ('expose_as',) else sub(v)) for k, v in x.items()}
+            return x
+        c2 = sub(contract)
+        if contract.get('expose'):
+            c2['expose'] = [ren.get(n, n) for n in contract['expose']]
+            c2['expose_as'] = {ren.get(n, n): n for n in contract['expose']}
+        c2['renamed'] = ren
+        return c2
+
     def loop_written_slots(s, f, h, l):
         """names (m_<x>) of the entry-block allocas that an instruction in blocks h..l may write: direct stores, stores through
         getelementptr / bitcast chains, and any call that receives a pointer derived from the slot"""
@@ -1070,6 +1114,8 @@ class Emitter:
         """returns (prototype, body text, callee set)"""
         mod = s.mod
         f = mod.funcs[fn]
+        if contract is not None:
+            contract = s.remap_contract_names(fn, f, contract)
         loops = s.find_loops(f) if contract is not None else []
         lcontracts = (contract or {}).get('loops', {})
         if contract is not None:
@@ -1422,7 +1468,7 @@ class Emitter:
                     for nm in (contract or {}).get('expose', []):
                         # ghost copies of selected locals at function exit, so that a postcondition can speak about them
                         if nm not in decls: raise Unsupported('exposed local %s is not a local of %s' % (nm, fn))
-                        code.append('ll2c_exit_%s = %s;' % (nm, nm))
+                        code.append('ll2c_exit_%s = %s;' % ((contract.get('expose_as') or {}).get(nm, nm), nm))
                     if t is None:
                         code.append('return;')
                     else:
@@ -1551,8 +1597,10 @@ class Emitter:
             for r in contract.get('requires', []): clauses.append('__CPROVER_requires(%s)' % r)
             for e in contract.get('ensures', []): clauses.append('__CPROVER_ensures(%s)' % e)
             if contract.get('assigns') is not None: clauses.append('__CPROVER_assigns(%s)' % contract['assigns'])
-        ghost = ['static %s ll2c_exit_%s;' % (decls[nm], nm) for nm in (contract or {}).get('expose', []) if nm in decls]
-        body = ghost + [proto] + clauses + ['{']
+        ghost = ['static %s ll2c_exit_%s;' % (decls[nm], ((contract or {}).get('expose_as') or {}).get(nm, nm)) for nm in (contract or {}).get('expose', []) if nm in decls]
+        # recorded names of renamed slots stay usable in text that is not part of the contract dictionary (case-split defines)
+        ren_defs = ['#define %s %s   /* renamed in the source since the contract was written */' % (o, n) for o, n in ((contract or {}).get('renamed') or {}).items()]
+        body = ren_defs + ghost + [proto] + clauses + ['{']
         for cn in order:
             if cn in pnames: continue
             body.append('  %s %s;' % (decls[cn], cn))
